@@ -260,6 +260,14 @@ impl Sim {
         })
     }
 
+    /// long-term: is the session key known to the harness (see `key_alg_certain`)?
+    pub fn lt_key_certain(&self) -> bool {
+        match (&self.cfg.mech, &self.lt_sess) {
+            (Mech::LongTerm, Some(s)) => key_alg_certain(s, None).is_some(),
+            _ => true,
+        }
+    }
+
     pub fn awaiting(&self) -> Vec<usize> {
         (0..self.reqs.len()).filter(|i| self.reqs[*i].fin.is_none()).collect()
     }
@@ -309,7 +317,7 @@ impl Sim {
                         Some(l) if l.iter().any(|a| a.id == 2) => 2,
                         _ => 1,
                     };
-                    let alg = info.and_then(|i| i.chosen_alg).or(s.chosen).unwrap_or(preferred);
+                    let alg = key_alg_certain(s, info.and_then(|i| i.chosen_alg)).unwrap_or(preferred);
                     (
                         KeySpec::LongTerm {
                             user: ref_opaque(&self.cfg.user),
